@@ -8,20 +8,20 @@ RULES = {
     "C01": [("sa.rules.b6", "r_C19a_C01"), ("sa.rules.c01", "r_C01ef"), ("sa.rules.c17", "r_C01h")],
     "C02": [("sa.rules.b6", "r_C02ab"), ("sa.rules.b3", "r_C02cd"), ("sa.rules.b3", "r_C08_C34"), ("sa.rules.c08", "r_C08bc"), ("sa.rules.c01", "r_C01ef")],
     "C03": [("sa.rules.b1", "r_C03a"), ("sa.rules.b6", "r_C03bc"), ("sa.rules.b3", "r_C03de_C11a_C17bc"), ("sa.rules.c03", "r_C03fgh"), ("sa.rules.c25", "r_C25efg")],
-    "C04": [("sa.rules.b2", "r_C04"), ("sa.rules.c04", "r_C04a"), ("sa.rules.c01", "r_C01ef")],
-    "C05": [("sa.rules.b3", "r_C05_C10"), ("sa.rules.c05", "r_C05cde")],
+    "C04": [("sa.rules.b2", "r_C04"), ("sa.rules.c04", "r_C04a"), ("sa.rules.c04", "r_C04num"), ("sa.rules.c04", "r_C04defaults"), ("sa.rules.c01", "r_C01ef")],
+    "C05": [("sa.rules.b3", "r_C05_C10"), ("sa.rules.c05", "r_C05cde"), ("sa.rules.c14", "r_C14h")],
     "C06": [("sa.rules.b7", "r_origin"), ("sa.rules.cmisc", "r_C06bcd")],
     "C07": [("sa.rules.b3", "r_C07"), ("sa.rules.b6", "r_C03bc"), ("sa.rules.c03", "r_C03fgh"), ("sa.rules.c05", "r_C07c"), ("sa.rules.c05", "r_none_tests")],
     "C08": [("sa.rules.b3", "r_C08_C34"), ("sa.rules.b3", "r_C02cd"), ("sa.rules.c08", "r_C08bc")],
-    "C09": [("sa.rules.b3", "r_C09"), ("sa.rules.b3", "r_C07"), ("sa.rules.cmisc", "r_C13d_C34f_C09d")],
+    "C09": [("sa.rules.b3", "r_C09"), ("sa.rules.b3", "r_C07"), ("sa.rules.cmisc", "r_C13d_C34f_C09d"), ("sa.rules.c08", "r_C08bc"), ("sa.rules.b3", "r_C08_C34")],
     "C10": [("sa.rules.b3", "r_C05_C10"), ("sa.rules.c05", "r_none_tests"), ("sa.rules.cmisc", "r_C10e")],
     "C11": [("sa.rules.b3", "r_C03de_C11a_C17bc"), ("sa.rules.c11", "r_C11b"), ("sa.rules.c11", "r_C11de"), ("sa.rules.c05", "r_none_tests")],
     "C12": [("sa.rules.b1", "r_C12a"), ("sa.rules.c12", "r_C12b"), ("sa.rules.c05", "r_C12c"), ("sa.rules.c11", "r_C11de")],
     "C13": [("sa.rules.b3", "r_C13"), ("sa.rules.cmisc", "r_C13d_C34f_C09d")],
-    "C14": [("sa.rules.b4", "r_ledger"), ("sa.rules.b1", "r_C14c"), ("sa.rules.c14", "r_ledger2"), ("sa.rules.b3", "r_C13")],
+    "C14": [("sa.rules.b4", "r_ledger"), ("sa.rules.b1", "r_C14c"), ("sa.rules.c14", "r_ledger2"), ("sa.rules.b3", "r_C13"), ("sa.rules.c14", "r_C14h")],
     "C15": [("sa.rules.b4", "r_ledger"), ("sa.rules.c14", "r_ledger2")],
     "C16": [("sa.rules.b3", "r_C16a"), ("sa.rules.c14", "r_ledger2"), ("sa.rules.c16", "r_cachekeys"), ("sa.rules.c25", "r_C27d")],
-    "C17": [("sa.rules.b3", "r_C03de_C11a_C17bc"), ("sa.rules.b6", "r_C17ad_C22b"), ("sa.rules.c05", "r_none_tests"), ("sa.rules.c17", "r_C17fgh")],
+    "C17": [("sa.rules.b3", "r_C03de_C11a_C17bc"), ("sa.rules.b6", "r_C17ad_C22b"), ("sa.rules.c05", "r_none_tests"), ("sa.rules.c17", "r_C17fgh"), ("sa.rules.b4", "r_ledger")],
     "C18": [("sa.rules.b4", "r_ledger"), ("sa.rules.c14", "r_ledger2")],
     "C19": [("sa.rules.b6", "r_C19a_C01"), ("sa.rules.c16", "r_cachekeys"), ("sa.rules.c22", "r_visitor")],
     "C20": [("sa.rules.b1", "r_C20a"), ("sa.rules.b6", "r_C19a_C01"), ("sa.rules.c16", "r_cachekeys"), ("sa.rules.c22", "r_visitor")],
@@ -38,7 +38,7 @@ RULES = {
     "C31": [("sa.rules.b4", "r_ledger"), ("sa.rules.c14", "r_ledger2"), ("sa.rules.c29", "r_export2")],
     "C32": [("sa.rules.c32", "r_C32")],
     "C33": [("sa.rules.b1", "r_C33a"), ("sa.rules.b3", "r_C28b_C33b_C30bc"), ("sa.rules.c29", "r_C33c_C34g")],
-    "C34": [("sa.rules.b3", "r_C08_C34"), ("sa.rules.cmisc", "r_C13d_C34f_C09d"), ("sa.rules.c29", "r_C33c_C34g")],
+    "C34": [("sa.rules.b3", "r_C08_C34"), ("sa.rules.c08", "r_C08bc"), ("sa.rules.cmisc", "r_C13d_C34f_C09d"), ("sa.rules.c29", "r_C33c_C34g")],
 }
 
 # findings of one property that are *also* reported under another (same defect, two properties)
@@ -51,7 +51,11 @@ ALSO = {
     "C14": {"C13": ("C13.a",), "C15": ("C15.c", "C15.d", "C15.e", "C15.f")},
     "C15": {"C14": ("C14.a", "C14.f", "C14.e"), "C18": ("C18.c", "C18.d", "C18.f")},
     # C09 "a Postponed result is never bound/stored": the builtins fallback clause of C07.b
-    "C09": {"C07": ("C07.b",)},
+    "C09": {"C07": ("C07.b",), "C08": ("C08.a", "C08.b")},   # "the result does not depend on the order taken": positional storage of list references
+    # "a repeated load of the same file returns the cached model": cleanup of a failed load must not evict finished models
+    "C17": {"C18": ("C18.b",)},
+    # the reference spans of _pos_crossref_list are the (position, position_end) queued with each ObjCrossRef
+    "C34": {"C08": ("C08.c",)},
     # error locations of list references come from the element positions (C08.c); line/col arithmetic (C06.d)
     "C28": {"C08": ("C08.c",), "C06": ("C06.c", "C06.d")},
     # eolterm/sep modifiers not installed -> the memoized and the plain parser disagree on the repetition's extent
@@ -66,7 +70,7 @@ ALSO = {
 # general clause families (sa/rules/gen.py): registered for every property they can attribute a finding to
 def _register_general():
     from sa.rules import gen
-    fn_of = {"T": "r_truth", "M": "r_memo", "O": "r_options", "S": "r_shallow"}
+    fn_of = {"T": "r_truth", "M": "r_memo", "O": "r_options", "S": "r_shallow", "P": "r_postponed"}
     for fam, ps in gen.families().items():
         for p in sorted(ps):
             if ("sa.rules.gen", fn_of[fam]) not in RULES[p]: RULES[p].append(("sa.rules.gen", fn_of[fam]))
